@@ -43,6 +43,8 @@ def accepted_at_equality(cond, pol, fft_shape_atoms):
 
 
 def run(chk, repo, tier):
+    from .common import no_hidden_state
+    no_hidden_state(chk, repo, 'C09')
     chk.clause('C09-a', 'tilt is refused first; _has_tilt inspects every field', 2)
     chk.clause('C09-b', 'shapes larger than the FFT grid are refused', 1)
     chk.clause('C09-c', 'a scratch buffer of exactly the advertised scratch_shape is accepted', 2)
@@ -201,6 +203,9 @@ def run(chk, repo, tier):
     want_shape = Tup([nf.app('round', wl * z * osf / (dx.items[k] * du2.items[k])) for k in (0, 1)], 'vec')
     chk.ob('C09-e', 'N-formula', ff.key, 'fft_shape = round(1/alpha) per axis', shape_t == want_shape,
            f'{fmt(shape_t)}; expected {fmt(want_shape)}', ff.loc())
+    want_wl = nf.app('min', *[want_shape.items[k] / osf * dx.items[k] * du2.items[k] / z for k in (0, 1)])
+    chk.ob('C09-e', 'N-formula', ff.key, 'reported wavelength = min over axes of fft_shape/oversample*dx*du/z', wl_t == want_wl,
+           f'{fmt(wl_t)[:200]}; expected {fmt(want_wl)[:200]}', ff.loc())
     ad = {('sym', 'z'): dims.D(m=1), ('sym', 'wavelength'): dims.D(m=1), ('sym', 'oversample'): dims.D(os=1)}
     for k, (a, u) in enumerate((('xr', 'ur0'), ('xc', 'uc0'))):
         ad[dx.items[k].single_atom()] = dims.D(m=1, **{a: -1})
